@@ -922,6 +922,184 @@ def _run_elicit_handler(cfg) -> Dict[str, Any]:
     return {"outcome": "elicit-handler:" + "+".join(sorted(outs)), "violations": J.viol, "counters": J.cnt, "emitter": J.emitter,
             "wire_digest": J.h.hexdigest()}
 
+# ---------------------------------------------------------------------------
+# (d') lines the stdio client writes on its own: the batch rejection, whatever ids the peer's batch carries
+# ---------------------------------------------------------------------------
+PEER_IDS = [("fraction", 1.5), ("true", True), ("false", False), ("null", None), ("array", []), ("array-of-id", [7]),
+            ("object", {}), ("object-with-id", {"id": 1}), ("string", "s"), ("empty-string", ""), ("int", 7), ("zero", 0),
+            ("big", 2 ** 64), ("negative-fraction", -0.5), ("absent", "__absent__")]
+PEER_SHAPES = ["request", "response", "error", "bare"]
+
+
+def _peer_member(shape: str, rid: Any) -> Any:
+    m: Dict[str, Any] = {"jsonrpc": "2.0"}
+    if rid != "__absent__":
+        m["id"] = copy.deepcopy(rid)
+    if shape == "request":
+        m["method"] = "tools/list"
+    elif shape == "response":
+        m["result"] = {}
+    elif shape == "error":
+        m["error"] = {"code": -32000, "message": "x"}
+    return m
+
+
+def _run_stdio_own(cfg) -> Dict[str, Any]:
+    from chuk_mcp.transports.stdio.stdio_client import StdioClient
+
+    version = cfg["version"]
+    shape = PEER_SHAPES[cfg["shape"]]
+    J = Judge("stdio:batch-rejection-line")
+    batches = []
+    for n1, i1 in PEER_IDS:
+        batches.append(([n1], [_peer_member(shape, i1)]))
+        for n2, i2 in PEER_IDS:
+            batches.append(([n1, n2], [_peer_member(shape, i1), _peer_member("request", i2)]))
+        batches.append((["non-object", n1], [42, _peer_member(shape, i1)]))
+    loop = new_loop(horizon=60)
+    q = seams.Quiescence(loop)
+    proc = seams.FakeProcess()
+    seen: List[tuple] = []
+    info: Dict[str, Any] = {}
+
+    async def main():
+        with seams.patched_open_process(lambda cmd, kw: proc) as pp:
+            async with StdioClient(seams.stdio_params()) as client:
+                client.set_protocol_version(version)
+                await q.settle()
+                for names, b in batches:
+                    n0 = len(proc.stdin.sends)
+                    proc.stdout.feed((json.dumps(b) + "\n").encode())
+                    await q.settle()
+                    seen.append((names, b, proc.stdin.sends[n0:]))
+            info["spawned"] = len(pp.spawned)
+
+    status, val = loop.run_main(main())
+    errors = loop.collect_errors()
+    loop.abandon()
+    if status != "ok":
+        raise core.HarnessError(f"stdio harness did not finish: {status} {val!r}")
+    if info.get("spawned") != 1:
+        raise core.HarnessError("seam missing: StdioClient did not call anyio.open_process")
+    for names, b, lines in seen:
+        J.count("cases")
+        ctx = f"version {version}: peer sent the batch {json.dumps(b)[:200]} (member ids: {names})"
+        if not lines:
+            J.count("no-line-written(C13's subject)")
+            continue
+        for raw in lines:
+            if not raw.endswith(b"\n") or raw.count(b"\n") != 1:
+                J.bad("stdio-framing", f"bytes {raw[:120]!r} are not one LF-terminated line; {ctx}")
+                continue
+            try:
+                w = json.loads(raw.decode("utf-8"))
+            except Exception as e:  # noqa: BLE001
+                J.bad("stdio-not-json", f"bytes {raw[:120]!r}: {e!r}; {ctx}")
+                continue
+            J.count("emitted")
+            J.wire(w, "stdin-bytes", "error", {}, ctx, allow_null_id_error=True)
+    if errors:
+        J.bad("loop-error", f"{errors[:2]}")
+    return {"outcome": "stdio-own:" + shape, "violations": J.viol, "counters": J.cnt, "emitter": J.emitter, "wire_digest": J.h.hexdigest()}
+
+
+# ---------------------------------------------------------------------------
+# (f) converters between the unified and the specific message classes, and the wrapper view
+# ---------------------------------------------------------------------------
+CONVERT_SOURCES = ["request", "notification", "result", "error"]
+
+
+def _run_convert(cfg) -> Dict[str, Any]:
+    from chuk_mcp.protocol.messages import json_rpc_message as jm
+
+    kind = CONVERT_SOURCES[cfg["kind"]]
+    rid = cfg["ids"][cfg["id"]]
+    method = METHODS[cfg["method"]]
+    J = Judge("convert:" + kind)
+    if kind in ("request", "notification"):
+        payloads = [None] + table("objects", cfg["depth"])
+    else:
+        payloads = table("values", cfg["depth"])
+    outs = set()
+    for p in payloads[cfg["lo"]:cfg["hi"]]:
+        J.count("cases")
+        if kind == "request":
+            exp = {"id": rid, "method": method, "params": _ABSENT if p is None else p}
+            typed = jm.create_request(method, copy.deepcopy(p), id=rid)
+            unified = jm.JSONRPCMessage.create_request(method, copy.deepcopy(p), id=rid)
+        elif kind == "notification":
+            exp = {"method": method, "params": _ABSENT if p is None else p}
+            typed = jm.create_notification(method, copy.deepcopy(p))
+            unified = jm.JSONRPCMessage.create_notification(method, copy.deepcopy(p))
+        elif kind == "result":
+            if p is None:
+                continue
+            exp = {"id": rid, "result": p}
+            typed = jm.create_response(rid, copy.deepcopy(p))
+            unified = jm.JSONRPCMessage.create_response(rid, copy.deepcopy(p)) if isinstance(p, dict) else None
+        else:
+            err = {"code": -32000, "message": MSGS[2]} if p is None else {"code": -32000, "message": MSGS[2], "data": p}
+            exp = {"id": rid, "error": err}
+            typed = jm.create_error_response(rid, -32000, MSGS[2], copy.deepcopy(p))
+            unified = jm.JSONRPCMessage.create_error_response(rid, -32000, MSGS[2], copy.deepcopy(p))
+        ctx = f"{kind} id={_show(rid)} method={_show(method)} payload={_show(p)}"
+        # specific -> unified
+        try:
+            u2 = jm.JSONRPCMessage.from_specific_type(typed)
+        except Exception as e:  # noqa: BLE001
+            if kind == "result" and not isinstance(p, dict):
+                # the unified class documents result: Optional[Dict]; it cannot hold another JSON type and says so
+                J.count("from_specific_type-refuses-non-object-result(recorded: unified result is typed Optional[Dict])")
+                outs.add("refused")
+            else:
+                J.bad("converter-raised", f"from_specific_type raised {type(e).__name__}: {str(e)[:100]}; {ctx}", converter="from_specific_type")
+        else:
+            J.emitted(u2, kind, exp, "JSONRPCMessage.from_specific_type(" + ctx + ")")
+            outs.add("converted")
+        # unified -> specific
+        if unified is not None:
+            try:
+                t2 = unified.to_specific_type()
+            except Exception as e:  # noqa: BLE001
+                J.bad("converter-raised", f"to_specific_type raised {type(e).__name__}: {str(e)[:100]}; {ctx}", converter="to_specific_type")
+            else:
+                J.emitted(t2, kind, exp, "to_specific_type(" + ctx + ")")
+                want_cls = {"request": "JSONRPCRequest", "notification": "JSONRPCNotification", "result": "JSONRPCResponse",
+                            "error": "JSONRPCError"}[kind]
+                if type(t2).__name__ != want_cls:
+                    J.bad("wrong-kind", f"to_specific_type returned {type(t2).__name__} for a {kind}; {ctx}", got=type(t2).__name__)
+        # the wrapper view over both carriers
+        for carrier, m in (("typed", typed), ("unified", unified)):
+            if m is None:
+                continue
+            try:
+                wv = jm.JSONRPCMessageWrapper(m)
+                forms = {"wrapper.model_dump(exclude_none=True)": jnorm(wv.model_dump(exclude_none=True)),
+                         "wrapper.model_dump_json(exclude_none=True)": json.loads(wv.model_dump_json(exclude_none=True))}
+                view = {k: getattr(wv, k) for k in ("id", "method", "params", "result", "error")}
+                default_form = json.loads(wv.model_dump_json())
+            except Exception as e:  # noqa: BLE001
+                J.bad("converter-raised", f"JSONRPCMessageWrapper over the {carrier} message raised {type(e).__name__}: {str(e)[:100]}; {ctx}",
+                      converter="wrapper")
+                continue
+            for form, w in forms.items():
+                J.wire(w, form, kind, exp, f"wrapper over the {carrier} message; {ctx}")
+            for k, want in exp.items():
+                got = view.get(k)
+                got = _ABSENT if got is None and k != "result" else got
+                try:
+                    got_n = got if got is _ABSENT else jnorm(got)
+                except Exception:  # noqa: BLE001
+                    got_n = repr(got)
+                if (want is _ABSENT) != (got_n is _ABSENT) or (want is not _ABSENT and not strict_eq(got_n, want)):
+                    J.bad("payload-altered", f"wrapper.{k} is {_show(got_n)}, the message holds {_show(want)}; {carrier}; {ctx}",
+                          form="wrapper-property", member=k, how=_diff_class(got_n, want))
+            # default dump (no exclude_none): recorded only - the library's serialisers always pass exclude_none=True
+            ok_default = classify(default_form)[0] == kind
+            J.count(f"wrapper.model_dump_json()-without-exclude_none/{carrier}/{kind}/" + ("valid" if ok_default else "INVALID(recorded)"))
+    return {"outcome": "convert:" + "+".join(sorted(outs)), "violations": J.viol, "counters": J.cnt, "emitter": J.emitter,
+            "wire_digest": J.h.hexdigest()}
+
 
 def _run_rejection(cfg) -> Dict[str, Any]:
     from chuk_mcp.protocol.features.batching import BatchProcessor
@@ -964,6 +1142,10 @@ def _run_part(cfg: Dict[str, Any]) -> Dict[str, Any]:
         return _run_rejection(cfg)
     if part == "raw":
         return _run_raw(cfg)
+    if part == "stdio-own":
+        return _run_stdio_own(cfg)
+    if part == "convert":
+        return _run_convert(cfg)
     raise core.HarnessError(f"unknown part {part}")
 
 
@@ -1104,7 +1286,7 @@ def run(tier: str, only=None) -> core.Result:
     samples += _pick("b-send-helpers", helper_cfg)
 
     # ---- (c) server ------------------------------------------------------------------------
-    ids_srv = IDS if tier == "quick" else IDS_FEW
+    ids_srv = (IDS_FEW + [-1, "0", 2 ** 53 + 1]) if tier == "quick" else IDS_FEW
     cfgs = [{"part": "server", "case": ci, "ids": ids_srv, "id": ii, "depth": depth, "lo": lo, "hi": hi}
             for ci in range(len(SERVER_CASES)) for ii in range(len(ids_srv)) for lo, hi in _ranges(n_obj, BLOCK)]
     if tier == "thorough":
@@ -1133,6 +1315,30 @@ def run(tier: str, only=None) -> core.Result:
     cfgs = [{"part": "rejection"}]
     out = explorer.explore(RUN, cfgs)
     sched.absorb(res, "d-batch-rejection-error", RUN, out, cfgs, min_outcomes=1)
+
+    cfgs = [{"part": "stdio-own", "version": v, "shape": si} for v in ("2025-06-18", "2025-06-19", "2030-01-01")
+            for si in range(len(PEER_SHAPES))]
+    out = explorer.explore(RUN, cfgs)
+    sched.absorb(res, "d-stdio-own-lines", RUN, out, cfgs)
+    samples += _pick("d-stdio-own-lines", cfgs)
+    sched.debug_pass(res, "d-stdio-own-lines", RUN, cfgs, every=4)
+
+    # ---- (f) converters and the wrapper view -----------------------------------------------------
+    cfgs = []
+    for ki, kn in enumerate(CONVERT_SOURCES):
+        n = n_obj if kn in ("request", "notification") else n_val
+        for ii in range(len(IDS_FEW)):
+            for mi in (range(len(METHODS)) if kn in ("request", "notification") else [0]):
+                for lo, hi in _ranges(n, BLOCK):
+                    if mi != 0 and lo != 0:
+                        continue
+                    if kn == "notification" and ii != 0:
+                        continue
+                    cfgs.append({"part": "convert", "kind": ki, "ids": IDS_FEW, "id": ii, "method": mi, "depth": min(depth, 2), "lo": lo, "hi": hi})
+    out = explorer.explore(RUN, cfgs)
+    sched.absorb(res, "f-converters-and-wrapper", RUN, out, cfgs)
+    samples += _pick("f-converters-and-wrapper", cfgs)
+    sched.debug_pass(res, "f-converters-and-wrapper", RUN, cfgs, every=37)
 
     # ---- (e) raw-dict emitters -----------------------------------------------------------------
     cfgs = []
@@ -1167,6 +1373,7 @@ def run(tier: str, only=None) -> core.Result:
     cov["messages_emitted_and_judged"] = cnt.get("emitted", 0)
     cov["serialised_forms_judged"] = cnt.get("forms_judged", 0)
     cov["by_kind"] = {k[5:]: v for k, v in cnt.items() if k.startswith("kind:")}
+    cov["wrapper_default_dump"] = {k: v for k, v in cnt.items() if k.startswith("wrapper.model_dump_json()")}
     cov["recorded_not_judged"] = {k: v for k, v in cnt.items()
                                   if "recorded" in k or k.startswith(("input-rejected", "handler-raised", "nothing-written",
                                                                         "request-not-parseable", "no-response", "error-with-null-id"))}
@@ -1186,8 +1393,14 @@ def run(tier: str, only=None) -> core.Result:
         "methods = {tools/call, empty, Unicode}. (a) every discovered constructor x id x method x every object as params / every value as "
         "result / every value as error.data (x 5 codes x 3 messages at depth 1; progress tokens at depth 1); (b) every discovered send_* helper x "
         "argument profiles {required only, all optionals, second Union arm} x 3 texts for str parameters x every object for Dict[str, Any] "
-        "parameters; (c) MCPServer handler: 14 method cases x id x every object as params/arguments; (d) stdio: 9 message kinds (typed, unified, "
+        "parameters; (c) MCPServer handler: 14 method cases x id x every object as params/arguments; the server, stdio and elicitation parts use the 8 ids "
+        "{0, 2^64-1, empty, 007, non-ASCII, -1, '0', 2^53+1} in quick; (d) stdio: 9 message kinds (typed, unified, "
         "dict) x id x payload through the real StdioClient to the scripted child's stdin; create_batch_rejection_error x 5 versions x 18 ids. "
+        "the lines the stdio client writes on its own: at 3 versions without batching, every batch of 1-2 members (request / response / error / bare object, "
+        "a non-object in front) whose ids range over every JSON type (1.5, -0.5, true, false, null, [], [7], {}, {id:1}, strings, 0, 7, 2^64, absent) - every line "
+        "written to the child must pass the envelope reference and the library's own parser. (f) JSONRPCMessage.to_specific_type / from_specific_type and "
+        "JSONRPCMessageWrapper (dump forms with exclude_none=True and the id/method/params/result/error properties) over both carriers x 5 ids (0, 2^64-1, empty string, digit string, non-ASCII) x method x every "
+        "object as params / every value as result / error.data (depth<=2). "
         "(e) every function with a {'jsonrpc': ...} dict literal (AST walk) is driven or listed with a reason: BatchProcessor.process_message_data x 4 versions x 17 ids x "
         "every batch of 1..2 members over {request, notification, non-object} x handler behaviour {answers, silent, raises one of 13 exceptions incl. "
         "`code` attributes str / callable / None / float / bool / 2^64}; ElicitationClient.handle_elicitation_request x id x every object as user data and the "
@@ -1211,6 +1424,9 @@ def run(tier: str, only=None) -> core.Result:
         "whether such a member should be answered at all is not C02's subject. The batch array as a whole is not fed to parse_message (it classifies only single messages reliably); every member is",
         "raw-dict emitters of the HTTP/SSE transports are listed as undriven here with the property that drives them (C11/C12)",
         "HTTP and SSE request bodies (model_dump(exclude_none=True) + httpx json=) are the first serialised form judged in (a)/(b); the POST itself is exercised by C11/C12",
+        "from_specific_type on a response whose result is not an object raises (the unified class types result as Optional[Dict]): recorded as refused, not judged; "
+        "when it converts, the conversion must be faithful",
+        "JSONRPCMessageWrapper.model_dump_json() WITHOUT exclude_none is recorded only (by_kind counters): the library's serialisers always pass exclude_none=True",
         "a slice of every part is re-run with the library's logging enabled at DEBUG (parts named +debug-logging; not counted in the headline numbers)",
         "seeded deep JSON of the quantifier is replaced by the bounded-exhaustive depth-" + str(depth) + " enumeration",
     ]
